@@ -95,7 +95,9 @@ func (t *Trie) BuildFailureLinks() {
 // Match returns true if the text contains any of the patterns in the trie.
 func (t *Trie) Match(text string) bool {
 	node := &t.root
-	for _, v := range text {
+	for i := 0; i < len(text); {
+		v, size := decodeRune(text, i)
+		i += size
 		idx := t.index(node.children, v)
 		for node != &t.root && idx < 0 {
 			node = node.fail
@@ -178,7 +180,9 @@ func (t *Trie) Replace(text string, repl string) string {
 // PrefixSearch returns all patterns that have the key as prefix.
 func (t *Trie) PrefixSearch(key string) []string {
 	node := &t.root
-	for _, v := range key {
+	for i := 0; i < len(key); {
+		v, size := decodeRune(key, i)
+		i += size
 		idx := t.index(node.children, v)
 		if idx < 0 {
 			return nil
@@ -212,7 +216,7 @@ func (t *Trie) PrefixSearch(key string) []string {
 		cur := stack[last]
 		stack = stack[:last]
 
-		buf.WriteRune(cur.r)
+		writeRune(&buf, cur.r)
 		if cur.node.isEnd {
 			ret = append(ret, buf.String())
 		}
@@ -222,13 +226,13 @@ func (t *Trie) PrefixSearch(key string) []string {
 				break
 			}
 
-			back := int(cur.depth + int32(utf8.RuneLen(cur.r)) - stack[last-1].depth)
+			back := int(cur.depth + runeLen(cur.r) - stack[last-1].depth)
 			buf.Truncate(buf.Len() - back)
 			continue
 		}
 
 		for _, child := range cur.node.children {
-			stack = append(stack, trieFrame{child.val, cur.depth + int32(utf8.RuneLen(cur.r)), child.node})
+			stack = append(stack, trieFrame{child.val, cur.depth + runeLen(cur.r), child.node})
 		}
 	}
 
@@ -242,7 +246,9 @@ func (t *Trie) FuzzySearch(key string) []string {
 	}
 
 	node := &t.root
-	for _, v := range key {
+	for i := 0; i < len(key); {
+		v, size := decodeRune(key, i)
+		i += size
 		idx := t.index(node.children, v)
 		for node != &t.root && idx < 0 {
 			node = node.fail
@@ -282,7 +288,7 @@ func (t *Trie) FuzzySearch(key string) []string {
 			cur := stack[last]
 			stack = stack[:last]
 
-			buf.WriteRune(cur.r)
+			writeRune(&buf, cur.r)
 			if cur.node.isEnd {
 				ret = append(ret, buf.String())
 			}
@@ -292,13 +298,13 @@ func (t *Trie) FuzzySearch(key string) []string {
 					break
 				}
 
-				back := int(cur.depth + int32(utf8.RuneLen(cur.r)) - stack[last-1].depth)
+				back := int(cur.depth + runeLen(cur.r) - stack[last-1].depth)
 				buf.Truncate(buf.Len() - back)
 				continue
 			}
 
 			for _, child := range cur.node.children {
-				stack = append(stack, trieFrame{child.val, cur.depth + int32(utf8.RuneLen(cur.r)), child.node})
+				stack = append(stack, trieFrame{child.val, cur.depth + runeLen(cur.r), child.node})
 			}
 		}
 
@@ -399,7 +405,29 @@ func decodeRune(s string, i int) (rune, int) {
 	}
 
 	r, size := utf8.DecodeRuneInString(s[i:])
+	if r == utf8.RuneError && size == 1 {
+		// a byte that is not part of a valid encoding is matched byte for byte
+		return invalidByte + rune(s[i]), 1
+	}
 	return r, size
+}
+
+// invalidByte + b is the symbol of the byte b where it is not part of a valid UTF-8 encoding.
+const invalidByte = utf8.MaxRune + 1
+
+func runeLen(r rune) int32 {
+	if r >= invalidByte {
+		return 1
+	}
+	return int32(utf8.RuneLen(r))
+}
+
+func writeRune(buf *bytes.Buffer, r rune) {
+	if r >= invalidByte {
+		buf.WriteByte(byte(r - invalidByte))
+		return
+	}
+	buf.WriteRune(r)
 }
 
 type trieFrame struct {
